@@ -372,12 +372,50 @@ class _Unroller(ast.NodeTransformer):
 
     LIMIT = 16
 
-    def __init__(self) -> None:
+    def __init__(self, literals: dict[str, ast.AST] | None = None) -> None:
         self.count = 0
+        self.literals = literals or {}  # local names bound exactly once to a list / tuple literal
+
+    def _rows(self, node: ast.For) -> Any:
+        """`for a, b in [(x1, y1), (x2, y2)]` (the literal given directly or through a local bound once): the rows as
+        [{a: x1, b: y1}, ...]; None when the loop does not have this shape."""
+        it = node.iter
+        if isinstance(it, ast.Name) and it.id in self.literals:
+            it = self.literals[it.id]
+        if not (isinstance(it, (ast.Tuple, ast.List)) and 0 < len(it.elts) <= self.LIMIT and not node.orelse):
+            return None
+        tg = node.target
+        names = [tg.id] if isinstance(tg, ast.Name) else ([e.id for e in tg.elts] if isinstance(tg, ast.Tuple) and all(isinstance(e, ast.Name) for e in tg.elts) else None)
+        if names is None or isinstance(tg, ast.Name):
+            return None
+        rows = []
+        for e in it.elts:
+            if not (isinstance(e, ast.Tuple) and len(e.elts) == len(names)) or any(isinstance(x, ast.Starred) for x in e.elts):
+                return None
+            rows.append(dict(zip(names, e.elts)))
+        return names, rows
 
     def visit_For(self, node: ast.For) -> Any:
         self.generic_visit(node)
         it = node.iter
+        multi = self._rows(node)
+        if multi is not None:
+            names, rows = multi
+            for x in node.body:
+                for y in ast.walk(x):
+                    if isinstance(y, (ast.Break, ast.Continue, ast.FunctionDef, ast.Lambda)):
+                        return node
+                    if isinstance(y, ast.Name) and y.id in names and not isinstance(y.ctx, ast.Load):
+                        return node
+            out_: list[ast.stmt] = []
+            for row in rows:
+                for st in node.body:
+                    new = copy.deepcopy(st)
+                    for nm, val in row.items():
+                        new = _ConstSubst(nm, val).visit(new)
+                    out_.append(new)
+            self.count += 1
+            return out_
         if not (isinstance(node.target, ast.Name) and isinstance(it, (ast.Tuple, ast.List)) and 0 < len(it.elts) <= self.LIMIT
                 and all(isinstance(e, ast.Constant) for e in it.elts) and not node.orelse):
             return node
@@ -397,7 +435,18 @@ class _Unroller(ast.NodeTransformer):
 
 
 def unrolled(node: ast.FunctionDef) -> ast.FunctionDef:
-    u = _Unroller()
+    counts: dict[str, int] = {}
+    lits: dict[str, ast.AST] = {}
+    for x in ast.walk(node):
+        if isinstance(x, ast.Name) and isinstance(x.ctx, (ast.Store, ast.Del)):
+            counts[x.id] = counts.get(x.id, 0) + 1
+        if isinstance(x, (ast.Assign, ast.AnnAssign)) and x.value is not None and isinstance(x.value, (ast.List, ast.Tuple)):
+            tgs = x.targets if isinstance(x, ast.Assign) else [x.target]
+            if len(tgs) == 1 and isinstance(tgs[0], ast.Name):
+                lits[tgs[0].id] = x.value
+    lits = {k: v for k, v in lits.items() if counts.get(k) == 1 and not any(
+        isinstance(y, ast.Call) and isinstance(y.func, ast.Attribute) and isinstance(y.func.value, ast.Name) and y.func.value.id == k for y in ast.walk(node))}
+    u = _Unroller(lits)
     new = u.visit(node)
     if u.count:
         ast.fix_missing_locations(new)
@@ -481,6 +530,9 @@ class _IndexLoops(ast.NodeTransformer):
                 return node
             new = ast.For(target=ast.Name(id=elem, ctx=ast.Store()), iter=ast.Call(func=ast.Name(id="reversed", ctx=ast.Load()), args=[copy.deepcopy(seq)], keywords=[]),
                           body=body, orelse=node.orelse, type_comment=None)
+        elif not sub.other_index_uses and not any(isinstance(y, ast.Name) and y.id == idx for st in node.orelse for y in ast.walk(st)):
+            # the index is used for nothing but picking the element: a plain for-each loop
+            new = ast.For(target=ast.Name(id=elem, ctx=ast.Store()), iter=copy.deepcopy(seq), body=body, orelse=node.orelse, type_comment=None)
         else:
             new = ast.For(target=ast.Tuple(elts=[ast.Name(id=idx, ctx=ast.Store()), ast.Name(id=elem, ctx=ast.Store())], ctx=ast.Store()),
                           iter=ast.Call(func=ast.Name(id="enumerate", ctx=ast.Load()), args=[copy.deepcopy(seq)], keywords=[]),
